@@ -1,5 +1,7 @@
 import Juniper.Model.ChanStream
 import Juniper.Proofs.ChanStream
+import Juniper.Model.Skeleton
+import Juniper.Generated.Skeleton
 /-!
 # stream.Chan (`chanStream`) — companion of C10 / the C08 clause "the per-call context only guards
 the wait, not the buffered data"
@@ -13,6 +15,13 @@ open Juniper.Facts Juniper.Gen.Pipe Juniper.Model.ChanStream Juniper.Proofs.Chan
 
 /-- `chanStream.Next` is one `select` over the data channel and the context, nothing else. -/
 theorem chan_tables_exact : tablesKnown = true := by decide
+
+/-- Tie 1 for the control flow: the regenerated statement-kind skeleton of `chanStream.Next` is
+`var zero; select { data arm: if !ok { return End }; return item | ctx arm: return }` and `Close` is
+empty — no statement added, removed or moved (`Model/Skeleton.lean`). -/
+theorem chan_skeleton_ok :
+    Gen.Skeleton.chanNext = Model.Skeleton.chanNext ∧ Gen.Skeleton.chanClose = Model.Skeleton.chanClose := by
+  decide
 
 /-- **Exact FIFO, nothing lost, nothing duplicated:** what `Next` has returned followed by what the
 channel still buffers is what the channel accepted, in order — whatever happened in between
@@ -37,15 +46,17 @@ theorem chan_ctx_costs_nothing {st st' : State} (hs : step st (.arm (.recv chCtx
   all_goals first | exact h | (simp [chCtx, chData] at h)
 
 /-- **Next returns once a value is buffered, the channel is closed or its context expired**: an arm
-that makes it return is enabled, and the condition persists until it does. -/
+that makes it return is enabled, and the condition persists until it does. First conjunct: `Next` is
+that one `select` and nothing else (regenerated control skeleton). -/
 theorem chan_next_never_stuck {st : State} (hp : st.parked = true)
     (hc : st.buf ≠ [] ∨ st.closed = true ∨ st.rctx = true) :
+    Gen.Skeleton.chanNext = Model.Skeleton.chanNext ∧
     (∃ a st', step st (.arm a) = some st' ∧ st'.parked = false) ∧
     (∀ l st', step st l = some st' →
       st'.parked = false ∨ (st'.buf ≠ [] ∨ st'.closed = true ∨ st'.rctx = true)) := by
   have hd : chanNextArms.contains (.recv chData) = true := by decide
   have hx : chanNextArms.contains (.recv chCtx) = true := by decide
-  constructor
+  refine ⟨by decide, ?_, ?_⟩
   · cases hb : st.buf with
     | cons v rest =>
       exact ⟨.recv chData, { st with buf := rest, delivered := st.delivered ++ [v], parked := false },
